@@ -15,6 +15,8 @@ import Driver.ApiProto
 import Driver.ObuWalk
 import Driver.DecWavefront
 import Driver.Lifecycle
+import Driver.Dispatch
+import Driver.Simd
 
 def main (args : List String) : IO UInt32 := do
   match args with
@@ -35,4 +37,6 @@ def main (args : List String) : IO UInt32 := do
   | ["obuwalk"] => Driver.obuWalkMain; return 0
   | ["decwf"] => Driver.decwfMain; return 0
   | ["lifecycle"] => Driver.lifecycleMain; return 0
+  | ["dispatch"] => Driver.dispatchMain; return 0
+  | ["simd"] => Driver.simdMain; return 0
   | _ => IO.eprintln "usage: svtmodel <subcommand>  (input on stdin, one op per line)"; return 2
